@@ -60,7 +60,7 @@ type cg struct {
 	err error
 }
 
-var leanKeywords = map[string]bool{"prefix": true, "syntax": true, "end": true, "open": true, "from": true, "at": true, "have": true,
+var leanKeywords = map[string]bool{"exists": true, "prefix": true, "syntax": true, "end": true, "open": true, "from": true, "at": true, "have": true,
 	"show": true, "fun": true, "do": true, "then": true, "else": true, "if": true, "let": true, "in": true, "with": true, "match": true,
 	"where": true, "by": true, "instance": true, "class": true, "structure": true, "def": true, "theorem": true, "namespace": true,
 	"section": true, "variable": true, "universe": true, "import": true, "macro": true, "notation": true, "infix": true, "postfix": true}
@@ -599,6 +599,24 @@ func (c *cg) stmts(list []ast.Stmt, k func(ind string) string, ind string) strin
 		}
 		return ind + c.fail("for loop of an unknown shape")
 	case *ast.AssignStmt:
+		// `x, err := q(state, args...)` with q a query of the state (no faults in the model)
+		if c.s.state != "" && len(s.Lhs) == 2 && len(s.Rhs) == 1 && exprText(s.Lhs[1]) == "err" {
+			if inner, ok := s.Rhs[0].(*ast.CallExpr); ok {
+				if f, ok := c.s.calls["qry:"+exprText(inner.Fun)]; ok {
+					if x, ok := s.Lhs[0].(*ast.Ident); ok {
+						var args []string
+						for _, a := range inner.Args {
+							if exprText(a) == c.s.state {
+								continue
+							}
+							args = append(args, c.expr(a))
+						}
+						c.s.locals[x.Name] = true
+						return ind + "let " + leanIdent(x.Name) + " := " + f + " files " + strings.Join(args, " ") + "\n" + rest(ind)
+					}
+				}
+			}
+		}
 		// `x, err := call; return f(x), err`: the call's result with f applied to the value
 		if len(s.Lhs) == 2 && len(s.Rhs) == 1 && exprText(s.Lhs[1]) == "err" && len(list) == 2 && c.s.mode == "err" {
 			if ret, ok := list[1].(*ast.ReturnStmt); ok && len(ret.Results) == 2 && exprText(ret.Results[1]) == "err" {
@@ -672,6 +690,25 @@ func (c *cg) stmts(list []ast.Stmt, k func(ind string) string, ind string) strin
 		if call, ok := s.X.(*ast.CallExpr); ok && exprText(call.Fun) == "sort.Strings" && len(call.Args) == 1 {
 			if id, ok := call.Args[0].(*ast.Ident); ok && c.s.locals[id.Name] {
 				return ind + "let " + leanIdent(id.Name) + " := " + c.s.calls["sort.Strings"] + " " + leanIdent(id.Name) + "\n" + rest(ind)
+			}
+		}
+		// p.CheckErr(f(state, args...), msg...) where f updates the state (no faults in the model: the error is nil);
+		// p.CheckErr(err, msg...) on an error variable: nothing
+		if call, ok := s.X.(*ast.CallExpr); ok && c.s.state != "" && strings.HasSuffix(exprText(call.Fun), ".CheckErr") && len(call.Args) >= 1 {
+			if id, ok := call.Args[0].(*ast.Ident); ok && id.Name == "err" {
+				return rest(ind)
+			}
+			if inner, ok := call.Args[0].(*ast.CallExpr); ok {
+				if f, ok := c.s.calls["upd:"+exprText(inner.Fun)]; ok {
+					var args []string
+					for _, a := range inner.Args {
+						if exprText(a) == c.s.state {
+							continue // the state itself, passed explicitly (afero.WriteFile(p.fs, ...))
+						}
+						args = append(args, c.expr(a))
+					}
+					return ind + "let files := " + f + " files " + strings.Join(args, " ") + "\n" + rest(ind)
+				}
 			}
 		}
 		// p.Assert(cond, msg...): fail-stop unless cond
@@ -1052,6 +1089,12 @@ func codeSpecs() []*fnSpec {
 		perSpec("tailOfFile", "persister_tailOfFile", "(files : List RespFile) (name : Pgs.Bytes)", "Int", "", []string{"resp", "name"}),
 		perSpec("insertFile", "persister_insertFile", "(files : List RespFile) (f : RespFile) (overwrite : Bool)", "List RespFile", "", []string{"resp", "f", "overwrite"}),
 		perSpec("insertAppend", "persister_insertAppend", "(files : List RespFile) (name : Pgs.Bytes) (f : RespFile)", "Except Pgs.Bytes (List RespFile)", "err", []string{"resp", "name", "f"}),
+		// C12: writeFile
+		{file: "persister.go", recv: "stdPersister", name: "writeFile", lean: "persister_writeFile", rn: "p", pn: []string{"name", "content", "overwrite", "perms"},
+			binders: "(files : Pgs.Persist.FS) (name content : Pgs.Bytes) (overwrite : Bool) (perms : Nat)", ret: "Pgs.Persist.FS", state: "p.fs",
+			exprs: map[string]string{"name": "name", "content": "content", "overwrite": "overwrite", "perms": "perms", "0755": "493"},
+			calls: map[string]string{"filepath.Dir": "Pgs.FilePath.dir", "upd:p.fs.MkdirAll": "mkdirAllMode", "qry:afero.Exists": "Pgs.Persist.FS.exists", "upd:afero.WriteFile": "Pgs.Persist.FS.write"},
+			ignore: []string{"p.Debug("}},
 		// C09
 		{file: "proto.go", rn: "s", recv: "Syntax", name: "SupportsRequiredPrefix", lean: "syntax_SupportsRequiredPrefix", binders: "(s : Pgs.Bytes)", ret: "Bool",
 			exprs: map[string]string{"s": "s", "Proto2": "Pgs.Generated.syntaxProto2"}},
@@ -1424,7 +1467,7 @@ func hydratePhases(repo string) (string, error) {
 func genCode(repo string) (map[string]string, error) {
 	files := map[string]string{}
 	var b strings.Builder
-	b.WriteString("import PgsVerif.Model.FilePath\nimport PgsVerif.Model.Context\nimport PgsVerif.Model.Params\nimport PgsVerif.Model.GoNames\nimport PgsVerif.Generated.Tables\n")
+	b.WriteString("import PgsVerif.Model.FilePath\nimport PgsVerif.Model.Context\nimport PgsVerif.Model.Params\nimport PgsVerif.Model.GoNames\nimport PgsVerif.Model.Persist\nimport PgsVerif.Generated.Tables\n")
 	b.WriteString("/- GENERATED by harness/cmd/factgen (codegen.go) from the current source of protoc-gen-star. Do not edit:\n")
 	b.WriteString("   regenerated (and overwritten) on every run of ./check and of setup.sh. -/\n")
 	b.WriteString("set_option linter.unusedVariables false\nnamespace Pgs.GenCode\n\n")
@@ -1458,6 +1501,8 @@ func genCode(repo string) (map[string]string, error) {
 	b.WriteString("def lookupTbl (t : List (Pgs.Bytes × Pgs.Bytes)) (k : Pgs.Bytes) : Option Pgs.Bytes := (t.find? (·.1 == k)).map (·.2)\n")
 	b.WriteString("/-- a prefixedDebugger, as far as its output goes, is the prefix string it stores -/\n")
 	b.WriteString("def mkPrefixedDebugger (parent : Unit) (prefix_ : Pgs.Bytes) : Pgs.Bytes := prefix_\n")
+	b.WriteString("/-- `fs.MkdirAll(dir, mode)`: directories carry no mode in the model -/\n")
+	b.WriteString("def mkdirAllMode (fs : Pgs.Persist.FS) (d : Pgs.Bytes) (mode : Nat) : Pgs.Persist.FS := fs.mkdirAll d\n")
 	b.WriteString("/-- plugin_go.CodeGeneratorResponse_File -/\n")
 	b.WriteString("structure RespFile where\n  name : Option Pgs.Bytes\n  insertionPoint : Option Pgs.Bytes\n  content : Option Pgs.Bytes\nderiving DecidableEq\n")
 	b.WriteString("/-- `GetName()`: the empty string when the field is unset -/\n")
